@@ -562,7 +562,7 @@ pub fn run(eng: &mut Engine) {
         "cases whose pointer inference does not stabilize are skipped (premise) and counted".into(),
         "identifiers the harness cannot evaluate count as represented (lenient, counted)".into(),
     ];
-    let cases = eng.tier.pick(12_000u64, 500_000u64);
+    let cases = eng.tier.pick(40_000u64, 1_200_000u64);
     eng.random(
         "pi-soundness",
         RandomSpec { cases, max_tape: 1400 },
